@@ -88,6 +88,19 @@ def libdir(extra_defs=""):
     log("[build] library from %s working tree -> %s (%.1fs)" % (REPO, d, time.time() - t0))
     return d
 
+def solib():
+    """shared library built from the working tree (out of tree), for the page-protection run of C15"""
+    d = libdir()
+    so = os.path.join(d, "so", "libisal.so")
+    if os.path.exists(so): return so
+    os.makedirs(os.path.join(d, "so"), exist_ok=True)
+    sh(["make", "-f", "Makefile.unx", "-C", REPO, "-j%d" % NPROC, "O=" + d + "/so/bin", "so_lib_name=" + so, "D=" + GUARD, "slib"], timeout=900)
+    if not os.path.exists(so):
+        c = glob.glob(os.path.join(d, "so", "libisal.so*"))
+        if not c: raise Infra("shared library build produced nothing")
+        so = c[0]
+    return so
+
 def build_harness(name, sources, extra_defs="", cflags="", libs=""):
     """Compile a harness program against the library built from the working tree."""
     d = libdir(extra_defs)
@@ -132,7 +145,7 @@ def tlc(module, cfg=None, wd=None, env=None, timeout=900, workers=1, extra=None,
     libs = os.pathsep.join([SPEC, os.path.join(SPEC, "gen"), os.path.join(SPEC, "trace"), os.path.join(SPEC, "mc")])
     gcflags = ["-XX:+UseSerialGC", "-Xmn256m"] if gc == "serial" else ["-XX:+UseParallelGC", "-XX:ParallelGCThreads=2"]
     cmd = ["java"] + gcflags + ["-XX:CICompilerCount=2", "-XX:TieredStopAtLevel=4", "-Xmx" + xmx, "-Xss" + xss, "-DTLA-Library=" + libs,
-           "-Djava.io.tmpdir=" + wd, "-cp", TLC_JAR, "tlc2.TLC", "-workers", str(workers),
+           "-Djava.io.tmpdir=" + wd, "-cp", TLC_JAR, "tlc2.TLC", "-noGenerateSpecTE", "-workers", str(workers),
            "-metadir", meta, "-config", cfgp] + (extra or []) + [path]
     e = dict(os.environ)
     e.pop("JAVA_TOOL_OPTIONS", None)
